@@ -131,6 +131,12 @@ class WF(common.SpaceMixin, Obligation):
             return
         if self.op2.name in ('interpDimension',):
             return
+        if any(d[1] == 0 for d in mid.dims) and self.op2.name.startswith(
+                ('apply(', 'applystr(', 'fn.reduce', 'fn.convolve')):
+            # numpy defines no minimum/maximum of an empty axis and refuses
+            # apply_along_axis over zero-length iteration axes: a reduction
+            # of a file with an empty dimension is outside the domain
+            return
         need = [n for n in ('A',) if n not in out.variables]
         if need and any(s in self.op2.name for s in
                         ('subset', 'renameVariable', 'eval', 'getvarpnc')):
